@@ -205,6 +205,10 @@ func diffAt(a, b []byte) string {
 func checkC01(c *Ctx) {
 	c.Assume("gofmt-canonical = fixpoint of go/format.Source (checked per file, not assumed)")
 	c.Assume("go/parser, go/printer are trusted")
+	if os.Getenv("VERIF_PART") == "reuse" { // development aid: one component only
+		c01Reuse(c)
+		return
+	}
 	max := 120
 	if !c.Quick() {
 		max = 0
@@ -340,6 +344,9 @@ func checkC01(c *Ctx) {
 	c.Set("link_snippets", len(items))
 	validateLink(c, items)
 	if !c01LinkMC(c) {
+		return
+	}
+	if !c01Reuse(c) {
 		return
 	}
 	c01ListFields(c)
